@@ -40,7 +40,7 @@ ASSUMPTIONS = [
     "dose files hold values that are exact in float32 (multiples of 1/64), so the loader's float32 parsing is not judged here",
     "mdoc doses: PriorRecordDose + ExposureDose per section, paired with images in ascending tilt-angle order (tilt angles "
     "without ties); the DateTime-ranked fallback of total_dose_load (no PriorRecordDose) is not exercised",
-    "a call is judged only inside the quantifier: 3-D float32/float64 stack, 1..10 images, 4 <= H, W <= 64, 0.5 <= pixel <= 10, "
+    "a call is judged only inside the quantifier: float32/float64 stack (3-D, or one 2-D image = one-image stack), 1..10 images, 4 <= H, W <= 64, 0.5 <= pixel <= 10, "
     "0 <= dose <= 300, one dose per image, orders 'xyz'/'zyx'",
 ]
 
@@ -50,16 +50,18 @@ CLASSES = ["random_f64", "random_f32", "plane_wave_f64", "plane_wave_f32", "plan
            "mixed_content"]
 REL = {"float64": 1e-10, "float32": 1e-4}
 ORDERS = ("xyz", "zyx")
+# the oracle's DFT is a 64x64 complex matrix product: BLAS worker threads only cost time on a shared machine
+ENV = {"OPENBLAS_NUM_THREADS": "1", "OMP_NUM_THREADS": "1", "MKL_NUM_THREADS": "1"}
 
 
 def plan(tier):
     k = len(CLASSES)
     if tier == "quick":
-        return dict(n_cases=11 * k, shards=2, classes=CLASSES, timeout_s=600,
-                    min_evals={"gain_stack": 6000, "gain_single": 6000, "gain_file": 30, "dc_mean": 900, "plane_wave": 90,
+        return dict(n_cases=11 * k, shards=2, classes=CLASSES, timeout_s=600, env=ENV,
+                    min_evals={"gain_stack": 7000, "gain_single": 7000, "gain_file": 30, "dc_mean": 1200, "plane_wave": 150,
                                "zero_dose": 200, "linearity": 200, "power": 900, "monotone": 900, "composition": 200,
                                "order_equiv": 200})
-    return dict(n_cases=260 * k, shards=12, classes=CLASSES, timeout_s=3000,
+    return dict(n_cases=260 * k, shards=12, classes=CLASSES, timeout_s=3000, env=ENV,
                 min_evals={"gain_stack": 150000, "gain_single": 150000, "gain_file": 700, "dc_mean": 25000, "plane_wave": 2500,
                            "zero_dose": 5000, "linearity": 5000, "power": 25000, "monotone": 25000, "composition": 5000,
                            "order_equiv": 5000})
@@ -98,7 +100,7 @@ def _df_resolve(A):
         return None
     t = A["tilt_stack"]
     if isinstance(t, np.ndarray):
-        if t.ndim != 3 or t.dtype not in (np.float32, np.float64):
+        if t.ndim not in (2, 3) or t.dtype not in (np.float32, np.float64):
             return None
         X = orc.to_nyx(t, A["input_order"])
         dt = str(t.dtype)
@@ -144,7 +146,7 @@ def _df_post(ctx, A, old, result):
     n, H, W = X.shape
     base = {"H": H, "W": W, "n": n, "pixel": p, "dtype": old["dtype"], "orders": [old["in_order"], old["out_order"]],
             "stack": old["src"], "dose_source": old["dose_src"]}
-    if not isinstance(result, np.ndarray) or result.ndim != 3 or orc.to_nyx(result, old["out_order"]).shape != X.shape:
+    if not isinstance(result, np.ndarray) or result.ndim not in (2, 3) or orc.to_nyx(result, old["out_order"]).shape != X.shape:
         ctx.check("gain_stack", False, dict(base, what="returned stack has the wrong shape",
                                             got=list(getattr(result, "shape", [])), expected_n_y_x=[n, H, W]))
         return
@@ -211,7 +213,7 @@ def setup(ctx):
     f_stack = monitors.wrap(ctx, tiltstack, "dose_filter", "gain_stack", _df_post, _df_applicable, _df_snapshot)
     ctx.declare("gain_file", "dc_mean", "plane_wave", "zero_dose", "linearity", "power", "monotone", "composition", "order_equiv")
     monitors.trace(ctx, [
-        ("tiltstack.dose_filter", f_stack, {"freq_fill": "frequency_array[y, x] = d", "per_tilt": "dose_filter_single_image(image",
+        ("tiltstack.dose_filter", f_stack, {"per_tilt": "dose_filter_single_image(image",
                                             "write_out": "ts.write_out(output_file)"}),
         ("tiltstack.dose_filter_single_image", f_single, {"attenuator": "q = np.exp("}),
         ("ioutils.total_dose_load", ioutils.total_dose_load,
@@ -221,9 +223,9 @@ def setup(ctx):
           "mdoc_datetime_rank": "sorted_df[\"total_dose\"] =", "xml": "get_data_from_warp_xml(input_dose", "one_per_line": "one_value_per_line_read(input_dose)"}),
         ("ioutils.one_value_per_line_read", ioutils.one_value_per_line_read),
         ("TiltStack.__init__", tiltstack.TiltStack.__init__, {"from_file": "cryomap.read(tilt_stack", "from_array": "self.data = tilt_stack.copy()",
-                                                              "xyz_in": "self.data = self.data.transpose(2, 1, 0)"}),
-        ("TiltStack.correct_order", tiltstack.TiltStack.correct_order, {"cast_back": "return_data.astype(self.data_type)",
-                                                                        "xyz_out": "return return_data.transpose(2, 1, 0)", "zyx_out": "return return_data"}),
+                                                              "xyz_in": "self.data = self.data.transpose(2, 1, 0)", "file_single_image": "self.data = np.expand_dims(\n",
+                                                              "array2d_xyz": "np.expand_dims(self.data, axis=2)", "array2d_zyx": "np.expand_dims(self.data, axis=0)"}),
+        ("TiltStack.correct_order", tiltstack.TiltStack.correct_order, {"xyz_out": "return return_data.transpose(2, 1, 0)", "zyx_out": ("return return_data", 1)}),
         ("TiltStack.write_out", tiltstack.TiltStack.write_out, {"writes": "cryomap.write(data_to_write"}),
     ])
 
@@ -371,6 +373,8 @@ def gen(ctx, i, cls):
     elif cls == "n1":
         n = 1
         kinds = [str(rng.choice(["normal", "plane", "impulse"]))]
+        if rep % 3 == 1:
+            stack_src = "array2d"                           # a single 2-D image handed over as such
     elif cls == "n10":
         n = 10
         kinds = [str(rng.choice(["normal", "counts", "plane"])) for _ in range(n)]
@@ -555,6 +559,8 @@ def run_case(ctx, case):
     if case["stack_src"] == "file":
         stack_in = os.path.join(ctx.scratch, "stack_%d.mrc" % case["i"])
         files.write_mrc_raw(stack_in, X.transpose(2, 1, 0), mode=2)
+    elif case["stack_src"] == "array2d":
+        stack_in = np.array(X[0].T if case["in_order"] == "xyz" else X[0], copy=True)
     else:
         stack_in = orc.from_nyx(X, case["in_order"])
     kw = {"input_order": case["in_order"], "output_order": case["out_order"]}
@@ -568,7 +574,7 @@ def run_case(ctx, case):
             os.remove(f)
     if not ok:
         return
-    if not isinstance(r, np.ndarray) or r.ndim != 3 or orc.to_nyx(r, case["out_order"]).shape != X.shape:
+    if not isinstance(r, np.ndarray) or r.ndim not in (2, 3) or orc.to_nyx(r, case["out_order"]).shape != X.shape:
         ctx.check("dc_mean", False, dict(info, what="returned stack has the wrong shape", got=list(getattr(r, "shape", []))))
         return
     Y = np.asarray(orc.to_nyx(r, case["out_order"]), dtype=np.float64)
